@@ -1289,3 +1289,204 @@ Proof.
   destruct (cuts_spec isz pg Hi Hp ops tr Hwf Hb Htr n Hn) as [bn [m [infl [H1 [_ [H2 _]]]]]].
   exists tr, bn, m, infl. cbn [fst snd]. auto.
 Qed.
+
+(* ---------- keys as Python objects: which keys are refused, and that a refused call is the identity ---------- *)
+Definition surrogate (c : N) : Prop := is_surrogate c = true.
+
+Lemma utf8_cp_err c e : utf8_cp c = Err e -> e = ValueError /\ surrogate c.
+Proof.
+  unfold utf8_cp, surrogate. destruct (c <? 128); [discriminate|]. destruct (c <? 2048); [discriminate|].
+  destruct (c <? 65536); [|discriminate]. destruct (is_surrogate c); [|discriminate].
+  intros H. injection H as <-. split; reflexivity.
+Qed.
+
+Lemma utf8_cp_surrogate c : surrogate c -> utf8_cp c = Err ValueError.
+Proof.
+  unfold surrogate, utf8_cp. intros H. rewrite H. unfold is_surrogate in H.
+  destruct (c <? 128) eqn:A; [lia|]. destruct (c <? 2048) eqn:B; [lia|]. destruct (c <? 65536) eqn:C; [reflexivity|lia].
+Qed.
+
+Lemma utf8_cp_ok c : ~ surrogate c -> exists b, utf8_cp c = Ok b /\ 1 <= len b <= 4.
+Proof.
+  unfold surrogate, utf8_cp. intros H. destruct (is_surrogate c); [contradiction H; reflexivity|].
+  destruct (c <? 128); [eexists; split; [reflexivity|unfold len; cbn [length]; lia]|].
+  destruct (c <? 2048); [eexists; split; [reflexivity|unfold len; cbn [length]; lia]|].
+  destruct (c <? 65536); eexists; (split; [reflexivity|unfold len; cbn [length]; lia]).
+Qed.
+
+Lemma utf8_cp_nonempty c a : utf8_cp c = Ok a -> a <> [].
+Proof.
+  unfold utf8_cp. destruct (c <? 128); [intros H; injection H as <-; discriminate|].
+  destruct (c <? 2048); [intros H; injection H as <-; discriminate|].
+  destruct (c <? 65536); [destruct (is_surrogate c); [discriminate|]|]; intros H; injection H as <-; discriminate.
+Qed.
+
+(* str.encode('utf-8') refuses exactly the strs that contain a surrogate code point, with UnicodeEncodeError *)
+Lemma utf8_err s e : utf8 s = Err e -> e = ValueError /\ Exists surrogate s.
+Proof.
+  induction s as [|c r IH]; cbn [utf8]; [discriminate|].
+  destruct (utf8_cp c) as [a|e1] eqn:E; cbn [bind].
+  - destruct (utf8 r) as [b|e2]; cbn [bind]; [discriminate|].
+    intros H. injection H as <-. destruct (IH eq_refl) as [-> Hx]. split; [reflexivity|right; exact Hx].
+  - intros H. injection H as <-. apply utf8_cp_err in E as [-> Hc]. split; [reflexivity|left; exact Hc].
+Qed.
+
+Lemma utf8_surrogate s : Exists surrogate s -> utf8 s = Err ValueError.
+Proof.
+  induction s as [|c r IH]; intros H; [inversion H|]. cbn [utf8].
+  destruct (utf8_cp c) as [a|e1] eqn:E; cbn [bind].
+  - inversion H as [? ? Hc|? ? Hr]; subst.
+    + rewrite (utf8_cp_surrogate c Hc) in E. discriminate.
+    + rewrite (IH Hr). reflexivity.
+  - apply utf8_cp_err in E as [-> _]. reflexivity.
+Qed.
+
+Lemma utf8_ok s : Forall (fun c => ~ surrogate c) s -> exists b, utf8 s = Ok b.
+Proof.
+  intros H. destruct (utf8 s) as [b|e] eqn:E; [exists b; reflexivity|].
+  apply utf8_err in E as [_ Hx]. apply Exists_exists in Hx as [c [Hin Hc]].
+  rewrite Forall_forall in H. destruct (H c Hin Hc).
+Qed.
+
+Lemma cons_inj {A} (a b : A) l m : a :: l = b :: m -> a = b /\ l = m.
+Proof. intros H. injection H. auto. Qed.
+Lemma ok_inj {A} (a b : A) : @Ok A a = Ok b -> a = b.
+Proof. intros H. injection H. auto. Qed.
+
+(* the encoding is a prefix code: two strs with the same encoding are the same str, so keying the handle's mapping by
+   the encoded bytes (the model) and by the str (the Python dict) is the same thing *)
+Lemma utf8_cp_inj c1 c2 a1 a2 r1 r2 :
+  utf8_cp c1 = Ok a1 -> utf8_cp c2 = Ok a2 -> a1 ++ r1 = a2 ++ r2 -> c1 = c2 /\ r1 = r2.
+Proof.
+  unfold utf8_cp. intros H1 H2 H.
+  destruct (c1 <? 128) eqn:A1;
+    [|destruct (c1 <? 2048) eqn:B1; [|destruct (c1 <? 65536) eqn:C1; [destruct (is_surrogate c1); [discriminate|]|]]];
+  (destruct (c2 <? 128) eqn:A2;
+    [|destruct (c2 <? 2048) eqn:B2; [|destruct (c2 <? 65536) eqn:C2; [destruct (is_surrogate c2); [discriminate|]|]]]);
+  apply ok_inj in H1; apply ok_inj in H2; subst a1 a2; cbn [app] in H;
+  repeat match goal with H : _ :: _ = _ :: _ |- _ => apply cons_inj in H; destruct H end;
+  first [ split; [lia|assumption] | exfalso; lia ].
+Qed.
+
+Lemma utf8_inj : forall s1 s2 b, utf8 s1 = Ok b -> utf8 s2 = Ok b -> s1 = s2.
+Proof.
+  induction s1 as [|c1 r1 IH]; intros s2 b H1 H2.
+  - cbn [utf8] in H1. injection H1 as <-. destruct s2 as [|c2 r2]; [reflexivity|]. cbn [utf8] in H2.
+    destruct (utf8_cp c2) as [a|] eqn:E; cbn [bind] in H2; [|discriminate].
+    destruct (utf8 r2); cbn [bind] in H2; [|discriminate]. injection H2 as H2.
+    apply utf8_cp_nonempty in E. destruct a; [contradiction E; reflexivity|discriminate].
+  - cbn [utf8] in H1. destruct (utf8_cp c1) as [a1|] eqn:E1; cbn [bind] in H1; [|discriminate].
+    destruct (utf8 r1) as [b1|] eqn:F1; cbn [bind] in H1; [|discriminate]. injection H1 as <-.
+    destruct s2 as [|c2 r2]; cbn [utf8] in H2.
+    + injection H2 as H2. apply utf8_cp_nonempty in E1. destruct a1; [contradiction E1; reflexivity|discriminate].
+    + destruct (utf8_cp c2) as [a2|] eqn:E2; cbn [bind] in H2; [|discriminate].
+      destruct (utf8 r2) as [b2|] eqn:F2; cbn [bind] in H2; [|discriminate]. injection H2 as H2.
+      destruct (utf8_cp_inj c1 c2 a1 a2 b1 b2 E1 E2 (eq_sym H2)) as [-> ->].
+      rewrite (IH r2 b2 eq_refl F2). reflexivity.
+Qed.
+
+(* which calls are refused: exactly those whose key is unhashable, is not a str, or is a str with a surrogate *)
+Definition pkeyof (o : pop) : option pykey :=
+  match o with PWrite k _ _ => Some k | PReadV k => Some k | PReopen => None end.
+
+Lemma key_bytes_err k e : key_bytes k = Err e <->
+  (k = KUnhashable /\ e = TypeError) \/ (k = KNoEncode /\ e = AttributeError) \/
+  (exists s, k = KStr s /\ Exists surrogate s /\ e = ValueError).
+Proof.
+  split.
+  - destruct k as [s| |]; cbn [key_bytes]; intros H.
+    + apply utf8_err in H as [-> Hx]. right. right. exists s. auto.
+    + injection H as <-. right. left. auto.
+    + injection H as <-. left. auto.
+  - intros [[-> ->]|[[-> ->]|[s [-> [Hx ->]]]]]; cbn [key_bytes]; [reflexivity|reflexivity|apply utf8_surrogate; exact Hx].
+Qed.
+
+Lemma some_inj {A} (a b : A) : Some a = Some b -> a = b.
+Proof. intros H. injection H. auto. Qed.
+Lemma err_inj {A} (a b : exn) : @Err A a = Err b -> a = b.
+Proof. intros H. injection H. auto. Qed.
+
+Lemma lower_err o e : lower o = Err e <-> exists k, pkeyof o = Some k /\ key_bytes k = Err e.
+Proof.
+  destruct o as [k v ts|k|]; cbn [lower pkeyof].
+  - destruct (key_bytes k) as [kb|e1] eqn:E; cbn [bind]; split.
+    + discriminate.
+    + intros [k' [H1 H2]]. apply some_inj in H1. subst k'. congruence.
+    + intros H. apply err_inj in H. subst e1. exists k. split; [reflexivity|exact E].
+    + intros [k' [H1 H2]]. apply some_inj in H1. subst k'. congruence.
+  - destruct (key_bytes k) as [kb|e1] eqn:E; cbn [bind]; split.
+    + discriminate.
+    + intros [k' [H1 H2]]. apply some_inj in H1. subst k'. congruence.
+    + intros H. apply err_inj in H. subst e1. exists k. split; [reflexivity|exact E].
+    + intros [k' [H1 H2]]. apply some_inj in H1. subst k'. congruence.
+  - split; [discriminate|]. intros [k' [H1 _]]. discriminate.
+Qed.
+
+(* a refused call raises and is the identity on the file and on the handle, in EVERY state (no hypothesis on w) *)
+Lemma pstep_refused isz w o e : lower o = Err e -> pstep isz w o = Ok (fst w, snd w, [], Some e).
+Proof. intros H. unfold pstep. rewrite H. reflexivity. Qed.
+
+Lemma pstep_accepted isz w o o' : lower o = Ok o' -> pstep isz w o = do s <- step isz w o'; Ok (s, None).
+Proof. intros H. unfold pstep. rewrite H. reflexivity. Qed.
+
+(* hence a history with refused calls IS the history of its accepted calls: same file, same handle, same effect trace *)
+Lemma prun_from_accepted isz : forall ops w,
+  prun_from isz w ops = do t <- run_from isz w (accepted ops); Ok (t, outcomes ops).
+Proof.
+  induction ops as [|o r IH]; intros [f h]; [reflexivity|].
+  cbn [prun_from accepted flat_map outcomes map]. unfold pstep. destruct (lower o) as [o'|e]; cbn [fst snd bind app].
+  - cbn [run_from]. destruct (step isz (f, h) o') as [[[f1 h1] tr1]|e1]; cbn [bind fst snd]; [|reflexivity].
+    rewrite IH. fold (accepted r). destruct (run_from isz (f1, h1) (accepted r)) as [[[f2 h2] tr2]|e2]; reflexivity.
+  - rewrite IH. fold (accepted r). destruct (run_from isz (f, h) (accepted r)) as [[[f2 h2] tr2]|e2]; reflexivity.
+Qed.
+
+Lemma prun_accepted isz ops : prun isz ops = do t <- run isz (accepted ops); Ok (t, outcomes ops).
+Proof.
+  unfold prun, run. destruct (start isz) as [[[f0 h0'] tr0]|e]; cbn [bind fst snd]; [|reflexivity].
+  rewrite prun_from_accepted. destruct (run_from isz (f0, h0') (accepted ops)) as [[[f1 h1] tr1]|e]; reflexivity.
+Qed.
+
+Lemma accepted_app a b : accepted (a ++ b) = accepted a ++ accepted b.
+Proof. unfold accepted. apply flat_map_app. Qed.
+
+Lemma accepted_refused a o b e : lower o = Err e -> accepted (a ++ o :: b) = accepted (a ++ b).
+Proof.
+  intros H. rewrite !accepted_app. f_equal. unfold accepted at 1. cbn [flat_map]. rewrite H. reflexivity.
+Qed.
+
+Definition wf_pop (o : pop) : Prop :=
+  match o with PWrite _ v ts => len v = 8 /\ len ts = 8 | _ => True end.
+
+Lemma accepted_wf ops : Forall wf_pop ops -> Forall wf_op (accepted ops).
+Proof.
+  induction 1 as [|o r Ho Hr IH]; [constructor|].
+  unfold accepted. cbn [flat_map]. fold (accepted r).
+  destruct o as [k v ts|k|]; cbn [lower]; [destruct (key_bytes k)|destruct (key_bytes k)|]; cbn [bind app];
+    try exact IH; constructor; try exact IH; try exact Ho; exact I.
+Qed.
+
+Lemma keys_main isz pg : 8 <= isz -> 4 <= pg -> forall ops,
+  Forall wf_pop ops -> 8 + total (spec (accepted ops)) < 2147483648 ->
+  exists b h tr, prun isz ops = Ok (Some b, h, tr, outcomes ops) /\ run isz (accepted ops) = Ok (Some b, h, tr) /\
+    Rep isz b h (spec (accepted ops)) /\
+    read_all b h = Ok (spec (accepted ops)) /\ read_all_from_file pg b = Ok (spec (accepted ops)) /\
+    (forall k v, In (k, v) (spec (accepted ops)) -> peek b h k = Ok v) /\
+    open_ isz (Some b) = Ok (h, []) /\ NoDup (map fst (spec (accepted ops))).
+Proof.
+  intros Hi Hp ops Hwf Hb.
+  destruct (C10_main isz pg Hi Hp (accepted ops) (accepted_wf ops Hwf) Hb) as [b [h [tr [H R]]]].
+  exists b, h, tr. split; [rewrite prun_accepted, H; reflexivity|]. split; [exact H|exact R].
+Qed.
+
+(* from ANY represented state: the refused call leaves a state that represents the same entries (it is the same
+   state), so the three read paths and a later reopen are as they were *)
+Lemma refused_keeps isz pg : 8 <= isz -> 4 <= pg -> forall o e b h es,
+  Rep isz b h es -> lower o = Err e ->
+  pstep isz (Some b, h) o = Ok (Some b, h, [], Some e) /\
+  read_all b h = Ok es /\ read_all_from_file pg b = Ok es /\ (forall k v, In (k, v) es -> peek b h k = Ok v) /\
+  open_ isz (Some b) = Ok (h, []).
+Proof.
+  intros Hi Hp o e b h es R H. split; [apply (pstep_refused isz (Some b, h) o e H)|].
+  destruct (rep_reads isz pg Hp _ _ _ R) as [H1 [H2 H3]].
+  split; [exact H1|]. split; [exact H2|]. split; [exact H3|]. apply (reopen_spec isz pg Hi Hp _ _ _ R).
+Qed.
